@@ -135,11 +135,34 @@ func lzhuf.(*lzhuf).update(z, c) ()
   loop 1 invariant below: forall m :: c < m && m <= l ==> z.freq[m] < k
   loop 1 decreases _R - l
 
+# reconst (the rebuild at 0x8000): that it re-establishes the whole tree invariant stays a
+# trusted postcondition (it needs a counting argument: exactly NumChar leaves).  What is proved on
+# its body: the canonical rebuild rule itself - leaves are collected in order with weight
+# (f+1)/2 (unsigned 64-bit arithmetic as in the code), internal node j pairs the nodes 2(j-NumChar) and 2(j-NumChar)+1 and is inserted behind
+# every node that is not heavier, parents are reconnected from the son table.
 func lzhuf.(*lzhuf).reconst(z) ()
-  props C08 C06 C03
-  trusted
+  props C08 C06 C07 C03
+  nosafety
   requires shape: TreeShape(z)
-  ensures inv: HuffInv(z) && z.freq[_R] < 32768
+  ensures_trusted inv: HuffInv(z) && z.freq[_R] < 32768
+  at store#0 requires leaf-weight-halved-rounding-up: $1 == j && $0 == div(mod(z.freq[i] + 1, 18446744073709551616), 2)
+  at store#1 requires leaf-kept-in-order: $1 == j && $0 == z.son[i] && $0 >= _T && j <= i
+  at store#2 requires node-pairs-two-consecutive-nodes: $1 == j && i == 2 * (j - _NumChar) && $0 == mod(z.freq[i] + z.freq[i + 1], 18446744073709551616)
+  at store#3 requires inserted-in-weight-order: $0 == first && $1 == k && k <= j && z.freq[k - 1] <= first
+  at copy#0 requires behind-every-node-that-is-not-heavier: k == j || first < z.freq[k]
+  at copy#0 requires shifts-the-heavier-nodes: last == j - k
+  at store#4 requires son-is-the-pair: $0 == i && $1 == k
+  at store#5 requires leaf-parent: $0 == i && $1 == z.son[i] && $1 >= _T
+  at store#6 requires second-child-parent: $0 == i && $1 == z.son[i] + 1 && z.son[i] < _T
+  at store#7 requires first-child-parent: $0 == i && $1 == z.son[i]
+  loop 0 invariant collected: 0 <= j && j <= i && i <= _T
+  loop 1 invariant pairs: _NumChar <= j && j <= _T && i == 2 * (j - _NumChar)
+  loop 2 invariant scan: k <= j && (k < j ==> first < z.freq[k]) && first == mod(z.freq[i] + z.freq[i + 1], 18446744073709551616) && i == 2 * (j - _NumChar) && _NumChar <= j && j < _T
+  loop 0 decreases _T - i
+  loop 1 decreases _T - j
+  loop 2 reads-input ASSUMED, not an input loop: the scan stops at node i+1 at the latest because first >= freq[i+1]; that needs the absence of 64-bit wrap-around in the weight sums, i.e. the global weight bound that is part of the trusted rebuild postcondition
+  loop 3 decreases _T - i
+  at return requires every-node-reconnected: true
 
 func lzhuf.(*Reader).decodeChar(d) (c)
   props C08 C03 C06
@@ -207,6 +230,8 @@ func lzhuf.NewB2Reader(r) (d, err)
   requires src: r != nil
   ensures inv: err == nil ==> d != nil && ReaderInv(d) && d.crc16
 
+ghost var gSym int
+ghost var gMatchPos int
 func lzhuf.(*Reader).Read(d, p) (n, err)
   props C08 C03 C06
   requires inv: ReaderInv(d)
@@ -216,6 +241,10 @@ func lzhuf.(*Reader).Read(d, p) (n, err)
   ensures delivered: d.state.pos - d.state.buf.len == old(d.state.pos) - old(d.state.buf.len) + n
   ensures bounded-output: d.state.pos - d.state.buf.len <= max(d.header.size, 0)
   ensures header: d.header.size == old(d.header.size) && d.header.crc == old(d.header.crc)
+  # a stream that has delivered its declared size is never reported as truncated; with nothing
+  # buffered and no reader error its end is io.EOF
+  ensures complete-stream-not-truncated [C06 C08]: old(d.state.pos) >= d.header.size && old(d.err) == nil && (old(d.r.err) == nil || old(d.r.err) == io.EOF) ==> err != io.ErrUnexpectedEOF
+  ensures end-of-stream-is-eof [C06 C08]: old(d.state.pos) >= d.header.size && old(d.state.buf.len) == 0 && old(d.err) == nil && old(d.r.err) == nil ==> err == io.EOF && n == 0 && d.err == nil
   loop 0 invariant inv: ReaderInv(d)
   loop 0 invariant n: 0 <= n && n <= len(p)
   loop 0 invariant delivered: d.state.pos - d.state.buf.len - n == old(d.state.pos) - old(d.state.buf.len)
@@ -228,6 +257,15 @@ func lzhuf.(*Reader).Read(d, p) (n, err)
   loop 1 invariant progress: k > 0 ==> n > 0
   loop 1 invariant pos: (k == 0 ==> d.state.pos == entry(d.state.pos)) && (k > 0 ==> d.state.pos > entry(d.state.pos))
   loop 1 decreases j - k
+  # a match code c >= 256 copies c - 255 + Threshold bytes starting (position + 1) bytes back
+  call lzhuf.(*Reader).decodeChar set gSym := $r0
+  call lzhuf.(*Reader).decodePosition set gMatchPos := $r0
+  loop 1 invariant match-length-and-source [C06 C07 C08]: j == gSym - 255 + _Threshold && i == mod(d.state.r - k - gMatchPos - 1, _N)
+  # every decoded byte goes, in order, to the caller's buffer (or the spill buffer) and into the window
+  at store#2 requires literal-delivered-as-decoded [C06 C08]: $1 == n && $0 == c
+  at store#3 requires literal-enters-window [C06 C08]: $1 == d.state.r && $0 == c
+  at store#4 requires match-byte-delivered-in-order [C06 C08]: $1 == n && $0 == d.z.textBuf[(i + k) % _N]
+  at store#5 requires match-byte-enters-window [C06 C08]: $1 == d.state.r && $0 == c && c == d.z.textBuf[(i + k) % _N]
   # a byte that does not fit the caller's buffer is kept for the next Read - the byte just decoded
   call bytes.(*Buffer).WriteByte requires spills-the-decoded-byte [C06 C08]: $1 == d.z.textBuf[(i + k) % _N]
 
@@ -338,6 +376,7 @@ ghost var gSizeBytes []byte
 ghost var gCodeBytes []byte
 ghost var gCrcLen int
 ghost var gCrc int
+ghost var gSinkErr bool
 
 func lzhuf.(*Writer).Close(w) (err)
   props C06 C07 C04
@@ -365,6 +404,14 @@ func lzhuf.(*Writer).Close(w) (err)
   call io.Copy#1 requires codes-last: gStage == 2 && unbox($0) == w.w && unbox($1) == w.buf
   call io.Copy#1 set gStage := 3
   call bufio.(*Writer).Flush requires everything-written: gStage == 3 && $0 == w.w
+  # Close reports an error only if writing to the underlying writer failed
+  requires no-sink-error-yet: !gSinkErr
+  call binary.Write#1 set gSinkErr := $r0 != nil
+  call io.Copy#0 set gSinkErr := gSinkErr || $r1 != nil
+  call io.Copy#1 set gSinkErr := gSinkErr || $r1 != nil
+  call bufio.(*Writer).Flush set gSinkErr := gSinkErr || $r0 != nil
+  loop 0 invariant no-sink-error-yet: !gSinkErr
+  ensures success-unless-the-sink-fails: err != nil ==> gSinkErr
 
 # --- bit output -------------------------------------------------------------
 # putbuf's low 16 bits are a window whose top putlen (< 8) bits are pending output and whose
@@ -490,7 +537,9 @@ func lzhuf.(*crcWriter).Write(w, p) (n, err)
 
 # Close returns success only if every integrity verdict holds
 func lzhuf.(*Reader).Close(d) (err)
-  props C08 C04
+  props C08 C04 C06
+  # ... and reports success whenever they all hold (C06: Close reports success for a genuine stream)
+  ensures success-when-every-verdict-holds [C06]: d.err == nil && d.r.err == nil && (!d.crc16 || d.header.crc == crcFlush(d.crcw.sum)) && d.header.size == wrap32s(d.state.pos - d.state.buf.len) ==> err == nil
   requires inv: d.crcw != nil
   ensures verdict-err: err == nil ==> d.err == nil && d.r.err == nil
   ensures verdict-size: err == nil ==> d.header.size == wrap32s(d.state.pos - d.state.buf.len)
